@@ -63,8 +63,10 @@ class Justifications:
                     m = prog.lookup_method(c, 'name')
                     if m is not None and m.is_property and self._returns_ast_name(m):
                         return self._assume(A1)
-        if ob.kind == 'precondition' and 'PortSelect._check_port_name' in ob.text and 'is empty/false' in ob.text:
-            if fn.qualname == 'PortsSemanticsCfg.match' and self._port_loop_over_expected(fn, self._call_with_port(ob.node)):
+        if ob.kind == 'precondition' and 'PortSelect.' in ob.text and 'is empty/false' in ob.text:
+            # a validator of PortSelect refusing an empty port name, called with the loop variable over the expected names
+            if fn.cls is not None and fn.cls.name == 'PortsSemanticsCfg' and \
+                    self._port_loop_over_expected(fn, self._call_with_port(ob.node)):
                 return self._assume(A1) + ' (loop variable over the expected port names)'
         # --- FindResult element types --------------------------------------------------------------------------
         if ob.kind == 'raise' and fn.qualname == 'FindResult.__post_init__' and ob.exc == 'TypeError':
